@@ -61,6 +61,7 @@ let run op args =
 let bytes_of_string s = List.init (String.length s) (fun i -> n_of_int (Char.code s.[i]))
 let split_list s = if s = "-" then [] else String.split_on_char ',' s
 let rec int_of_nat = function O -> 0 | S n -> 1 + int_of_nat n
+let rec nat_of_int_ i = if i <= 0 then O else S (nat_of_int_ (i - 1))
 let base_run = int_of_z first_runid
 
 let parse_step (toks : string list) : hstep =
@@ -141,7 +142,80 @@ let run_hist (line : string) : string =
   let res = List.filter_map (fun (st, x) -> match st with SHint _ -> None | _ -> Some x) (List.combine h res) in
   String.concat " ;; " (List.map (fun (w, o) -> show_output o ^ " " ^ digest w) res)
 
+(* ------------------------------------------------------------------ *)
+(* token traces (Tokens/Model.v): one file per top-level invocation     *)
+let validate_trace (lines : string list) (inherited : int) : string =
+  let st = ref None in
+  let top = ref (-1) in
+  let nev = ref 0 in
+  let err = ref None in
+  let zi = z_of_int and iz = int_of_z in
+  let fail k l msg = if !err = None then err := Some (Printf.sprintf "REJECT line %d (%s): %s" k l msg) in
+  List.iteri (fun k l ->
+    if !err = None then
+    match String.split_on_char ' ' l with
+    | "tok" :: pid :: kind :: my :: ch :: _kids :: detail ->
+        let pid = int_of_string pid and my = int_of_string my and ch = int_of_string ch in
+        let detail = List.filter (fun x -> x <> "") detail in
+        let known () = match !st with None -> false | Some s -> find (zi pid) s.procs <> None in
+        let step e check_after =
+          (match !st with
+           | None -> fail k l "event before any begin"
+           | Some s ->
+             (match apply e s with
+              | None -> fail k l "the model refuses this event (assertion / accounting would break)"
+              | Some s' ->
+                  incr nev;
+                  st := Some s';
+                  if check_after then
+                    (match find (zi pid) s'.procs with
+                     | Some p -> if iz p.my <> my || iz p.ch <> ch then
+                         fail k l (Printf.sprintf "model book (%d,%d) differs from reported (%d,%d)" (iz p.my) (iz p.ch) my ch)
+                     | None -> fail k l "process unknown after event"))) in
+        (match kind, detail with
+         | "begin", [t] ->
+             let t = int_of_string t in
+             if !st = None then begin
+               top := pid;
+               if t > 0 then st := Some (init (zi pid) (zi t))
+               else st := Some { t = zi inherited; c = Z0; procs = [(zi pid, { my = zi 1; ch = Z0 })]; j = zi 1; l = zi 1 }
+             end else if not (known ()) then step (EBegin (zi pid)) true
+         | "start", _ -> step (EStart (zi pid)) true
+         | "read", _ -> step (ERead (zi pid)) true
+         | "cheat", _ -> step (ECheat (zi pid)) true
+         | "reap_eat", _ -> step (EReapEat (zi pid)) true
+         | "reap_create", _ -> step (EReapCreate (zi pid)) true
+         | "release", [n; shared] ->
+             if known () then begin
+               let before = (match !st with Some s -> iz s.t | None -> 0) in
+               step (ERelease (zi pid, nat_of_int_ (int_of_string n))) true;
+               (match !st with
+                | Some s -> if !err = None && iz s.t - before <> int_of_string shared then
+                    fail k l (Printf.sprintf "model writes %d token bytes, implementation wrote %s" (iz s.t - before) shared)
+                | None -> ())
+             end
+         | "selftest", [tokens; cheats; _] ->
+             (match !st with
+              | Some s -> if iz s.t <> int_of_string tokens || iz s.c <> int_of_string cheats then
+                    fail k l (Printf.sprintf "pipes hold (%s,%s) but the model has (%d,%d)" tokens cheats (iz s.t) (iz s.c))
+                  else step (ESelfTest (zi pid)) false
+              | None -> ())
+         | "exit", _ ->
+             if pid = !top && inherited < 0 then () else step (EExit (zi pid)) false
+         | _ -> fail k l "unknown event")
+    | _ -> ()) lines;
+  match !err with
+  | Some e -> e
+  | None -> (match !st with
+             | Some s -> Printf.sprintf "OK events=%d Q=%d T=%d C=%d J=%d L=%d procs=%d" !nev (iz (q s)) (iz s.t) (iz s.c) (iz s.j) (iz s.l) (List.length s.procs)
+             | None -> "EMPTY")
+
 let () =
+  if Array.length Sys.argv > 2 && Sys.argv.(1) = "toktrace" then begin
+    let inherited = if Array.length Sys.argv > 3 then int_of_string Sys.argv.(3) else -1 in
+    let ic = open_in Sys.argv.(2) in
+    let rec rd acc = match input_line ic with l -> rd (l :: acc) | exception End_of_file -> List.rev acc in
+    print_endline (validate_trace (rd []) inherited); exit 0 end;
   if Array.length Sys.argv > 1 && Sys.argv.(1) = "hist" then begin
     (try
       while true do
